@@ -28,10 +28,10 @@ CHECKS = {
     "C02": {"units": [rapid("freex", "TestC02Free", 1000, 600, 16), rapid("csyncx", "TestC02", 10000, 100000)]},
     "C03": {"units": [rapid("freex", "TestC03Free", 1000, 600, 16), rapid("bcastx", "TestC03", 10000, 100000)]},
     "C04": {"units": [rapid("freex", "TestC04Free", 1000, 600, 16), rapid("routinex", "TestC04", 10000, 60000)]},
-    "C05": {"units": [rapid("freex", "TestC05Free", 1500, 300, 16), rapid("routinex", "TestC05", 11000, 60000)]},
+    "C05": {"units": [rapid("freex", "TestC05Free", 1500, 300, 16), rapid("freex", "TestC05FreeMix", 1500, 600, 16), rapid("routinex", "TestC05", 11000, 60000)]},
     "C12": {"units": [rapid("lifox", "TestC12Controlled", 6000, 10000), rapid("lifox", "TestC12Free", 1000, 1000, 16), rapid("lifox", "TestC12Burst", 4000, 1000, 8), rapid("lifox", "TestC12ListBurst", 1500, 800, 8), rapid("lifox", "TestC12PopRace", 60, 300, few_shards=2), rapid("lifox", "TestC12ListEnds", 60, 300, few_shards=4)]},
     "C13": {"units": [rapid("racex", "TestC13", 2500, 5000, 16, race=True, shrinktime="5s")]},
-    "C14": {"units": [rapid("routinex", "TestC14Ctors", 400, 2000, 4), rapid("routinex", "TestC14Backoff", 1500, 5000, 8), rapid("routinex", "TestC14", 10000, 60000)]},
+    "C14": {"units": [rapid("routinex", "TestC14Ctors", 400, 2000, 4), rapid("routinex", "TestC14Elapsed", 100, 400, 4), rapid("routinex", "TestC14Backoff", 1500, 5000, 8), rapid("routinex", "TestC14", 10000, 60000)]},
     "C06": {"units": [rapid("keyedx", "TestC06Keyed", 6000, 40000), rapid("keyedx", "TestC06RefCount", 6000, 40000)]},
     "C07": {"units": [rapid("freex", "TestC07Free", 1000, 600, 16), rapid("keyedx", "TestC07", 8000, 50000), rapid("keyedx", "TestC07Retry", 300, 500, 4)]},
     "C08": {"units": [rapid("freex", "TestC08Free", 1000, 600, 16), rapid("refcountx", "TestC08", 8000, 50000)]},
